@@ -24,6 +24,8 @@ Chains == [
   tsThreshold  |-> << R(1, <<1, 2>>, 1, <<3>>, 1, <<4>>, 1), R(2, <<1, 2>>, 2, <<3>>, 1, <<4>>, 1) >>,
   tsOverlap    |-> << R(1, <<1>>, 1, <<3>>, 1, <<4>>, 1), R(2, <<1, 2>>, 1, <<3>>, 1, <<4>>, 1), R(3, <<2>>, 1, <<3>>, 1, <<4>>, 1) >>,
   tsReorder    |-> << R(1, <<1, 2>>, 1, <<3>>, 1, <<4>>, 1), R(2, <<2, 1>>, 1, <<3>>, 1, <<4>>, 1) >>,
+  \* the timestamp role gains the key of the snapshot role: the key lists change, the union of online keys does not
+  tsTakesSnKey |-> << R(1, <<1>>, 1, <<3>>, 1, <<4>>, 1), R(2, <<1, 3>>, 1, <<3>>, 1, <<4>>, 1) >>,
   noChange     |-> << R(1, <<1>>, 1, <<3>>, 1, <<4>>, 1), R(2, <<1>>, 1, <<3>>, 1, <<4>>, 1) >>
 ]
 TheChain == Chains[ChainId]
